@@ -463,6 +463,12 @@ def decision_walk(fn, choose, watch_locals=(), start=0, limit=4096, track=None):
     out = []
     stack = [(start, {}, [], [], frozenset(), {})]
     n = 0
+    escaped = set()
+    if track is not None:
+        for b_ in fn.blocks:
+            for st_ in b_["stmts"]:
+                if st_["k"] == "assign" and st_["rv"]["k"] in ("ref", "rawptr") and (st_["rv"].get("mut") or st_["rv"]["k"] == "rawptr"):
+                    escaped.add(st_["rv"]["place"]["l"])
 
     def opval(env, op):
         c = op.get("const")
@@ -495,7 +501,7 @@ def decision_walk(fn, choose, watch_locals=(), start=0, limit=4096, track=None):
                 elif rv["k"] == "un" and rv.get("op") == "Not":
                     x = opval(env, rv["a"])
                     v = None if x is None else (not x)
-                if v is None:
+                if v is None or s["lhs"]["l"] in escaped:
                     env.pop(s["lhs"]["l"], None)
                 else:
                     env[s["lhs"]["l"]] = v
